@@ -1273,3 +1273,167 @@ func ruleHandlerFromAssigner(c *chk.Ctx, d *dispatchModel) {
 		c.Undecided("PROV.assign", f, "handler assignment", f.Pos(), "no handler assignment found")
 	}
 }
+
+// ruleBatchFlagChain: the "this message came in an array" flag is true exactly
+// on the array branch of the envelope parser, is copied member → task in the
+// check/assign function (task → response is checked by PROV.reply), and the
+// list encoder's bare-object test reads it (TABLE.bare).
+func ruleBatchFlagChain(c *chk.Ctx, d *dispatchModel) {
+	// envelope parser: Store to jmessage.batch of a value that is a phi of constants,
+	// true only from blocks on the "first byte is '['" branch
+	var lp *ssa.Function
+	for _, f := range pkgFuncs(c, c.M.Pkg) {
+		if f.Parent() == nil && isListParser(c, f) {
+			lp = f
+		}
+	}
+	if lp == nil {
+		c.Undecided("PROV.batchflag", nil, "envelope parser", 0, "message-list parser not resolved")
+		return
+	}
+	n := 0
+	ir.Instrs(lp, func(ins ssa.Instruction) {
+		st, ok := ins.(*ssa.Store)
+		if !ok || !chk.IsField(st.Addr, c.M.JBatch) {
+			return
+		}
+		n++
+		phi, isPhi := st.Val.(*ssa.Phi)
+		good := false
+		why := "the flag is not a phi of constants"
+		if isPhi {
+			good = true
+			for i, e := range phi.Edges {
+				k, isK := e.(*ssa.Const)
+				if !isK || k.Value == nil {
+					good, why = false, "a non-constant value flows into the flag"
+					break
+				}
+				isTrue := k.Value.String() == "true"
+				// is this edge on the array branch? (first byte compared with '[')
+				array := false
+				for _, cd := range ir.EdgeConds(phi.Block().Preds[i], phi.Block()) {
+					if bo, ok := cd.V.(*ssa.BinOp); ok {
+						if kk, isC := ir.ConstInt(bo.Y); isC && kk == '[' {
+							if (bo.Op == token.NEQ && !cd.Truth) || (bo.Op == token.EQL && cd.Truth) {
+								array = true
+							}
+						}
+					}
+				}
+				if isTrue != array {
+					good = false
+					why = fmt.Sprintf("edge %d sets batch=%v on the %s branch", i, isTrue, map[bool]string{true: "array", false: "single-value"}[array])
+				}
+			}
+		}
+		c.Check(good, "PROV.batchflag", lp, "batch flag set exactly on the array branch", st.Pos(), "members are flagged as batch members exactly when the message's first significant byte is '['", "the batch flag does not follow the array/single-value decision of the envelope parser ("+why+"): a single request could be answered with an array or an array request with a bare object")
+	})
+	if n == 0 {
+		c.Undecided("PROV.batchflag", lp, "batch flag store", lp.Pos(), "the envelope parser does not set the batch flag")
+	}
+	// member → task
+	ok := false
+	ir.Instrs(d.checkAssign, func(ins ssa.Instruction) {
+		st, isSt := ins.(*ssa.Store)
+		if isSt && chk.IsField(st.Addr, c.M.TBatch) && chk.LoadsField(st.Val, c.M.JBatch) {
+			ok = true
+		}
+	})
+	c.Check(ok, "PROV.batchflag", d.checkAssign, "flag carried from member to task", d.checkAssign.Pos(), "task.batch ← member.batch", "the task's batch flag is not copied from the inbound member")
+}
+
+// ruleBatchOrder: C04-D5 (structural part): Batch builds request i from spec i,
+// returns send's slice unchanged, and send creates one pending slot per
+// id-carrying request in one pass, in order.
+func ruleBatchOrder(c *chk.Ctx) {
+	var batch, send *ssa.Function
+	for _, f := range pkgFuncs(c, c.M.Pkg) {
+		if f.Parent() != nil || ir.RecvNamed(f) != c.M.Client {
+			continue
+		}
+		sig := f.Signature
+		if sig.Params().Len() == 2 && sig.Results().Len() == 2 && strings.HasSuffix(sig.Params().At(1).Type().String(), "[]"+c.M.Pkg.Pkg.Path()+".Spec") {
+			batch = f
+		}
+		if sig.Params().Len() == 2 && sig.Results().Len() == 2 && isJmessagesType(c, sig.Params().At(1).Type()) {
+			send = f
+		}
+	}
+	if batch == nil || send == nil {
+		c.Undecided("PROV.order", nil, "Batch/send", 0, "Batch or send not resolved")
+		return
+	}
+	// reqs[i] = req built from specs[i] (same index)
+	okIdx := false
+	ir.Instrs(batch, func(ins ssa.Instruction) {
+		st, ok := ins.(*ssa.Store)
+		if !ok {
+			return
+		}
+		ia, ok := st.Addr.(*ssa.IndexAddr)
+		if !ok || !isJmessagesType(c, ia.X.Type()) {
+			return
+		}
+		// the value's sources: results of req/note calls whose method argument is a field of specs[same index]
+		for _, src := range c.P.SourcesStop(st.Val, func(v ssa.Value) bool { _, isE := v.(*ssa.Extract); return isE }) {
+			e, isE := src.(*ssa.Extract)
+			if !isE {
+				continue
+			}
+			call, isCall := e.Tuple.(*ssa.Call)
+			if !isCall || len(call.Call.Args) < 3 {
+				continue
+			}
+			if u, ok := call.Call.Args[2].(*ssa.UnOp); ok {
+				if fa, ok := u.X.(*ssa.FieldAddr); ok {
+					if ia2, ok := fa.X.(*ssa.IndexAddr); ok && ia2.Index == ia.Index {
+						okIdx = true
+					}
+					if ld, ok := fa.X.(*ssa.Alloc); ok {
+						// spec copied into a local: its store comes from specs[index]
+						for _, cs := range ir.CellStores(ld) {
+							if u2, ok := cs.Val.(*ssa.UnOp); ok {
+								if ia2, ok := u2.X.(*ssa.IndexAddr); ok && ia2.Index == ia.Index {
+									okIdx = true
+								}
+							}
+						}
+					}
+				}
+			}
+		}
+	})
+	c.Check(okIdx, "PROV.order", batch, "request i is built from spec i", batch.Pos(), "reqs[i] is the request built from specs[i] (same index)", "Batch does not build request i from spec i")
+	okRet := false
+	for _, r := range ir.Returns(batch) {
+		if e, ok := ir.ReturnResult(r, 0).(*ssa.Extract); ok && e.Index == 0 {
+			if call, ok := e.Tuple.(*ssa.Call); ok && call.Call.StaticCallee() == send {
+				okRet = true
+			}
+		}
+	}
+	c.Check(okRet, "PROV.order", batch, "responses returned in send's order", batch.Pos(), "Batch returns the slice send produced, unchanged", "Batch does not return send's response slice unchanged")
+	// send: one append of a pending slot per request with an id, inside one loop over the requests
+	var apps []*ssa.Call
+	ir.Instrs(send, func(ins ssa.Instruction) {
+		if call, ok := ins.(*ssa.Call); ok {
+			if b, isB := call.Call.Value.(*ssa.Builtin); isB && b.Name() == "append" && strings.HasSuffix(call.Type().String(), "[]*"+c.M.Pkg.Pkg.Path()+".Response") {
+				apps = append(apps, call)
+			}
+		}
+	})
+	okApp := len(apps) == 1 && ir.InCycle(apps[0].Block())
+	if okApp {
+		gov := false
+		for _, cd := range ir.CondsAt(apps[0].Block()) {
+			if bo, ok := cd.V.(*ssa.BinOp); ok {
+				if s, isS := constString(bo.Y); isS && s == "" && ((bo.Op == token.NEQ && cd.Truth) || (bo.Op == token.EQL && !cd.Truth)) {
+					gov = true
+				}
+			}
+		}
+		okApp = gov
+	}
+	c.Check(okApp, "PROV.order", send, "one slot per id-carrying request, in order", send.Pos(), "a single append inside the loop over the requests, governed by id != \"\"", "pending slots are not created one per id-carrying request in a single in-order pass")
+}
